@@ -653,7 +653,7 @@ fn get_region_name_and_type_definition<'a>(
     let region_name = region
         .name
         .clone()
-        .expect("region had no name, this shouldn't be possible");
+        .with_context(|| format!("base field of type `{type_path}` must have a name"))?;
 
     let Type::Raw(path) = &region.type_ref else {
         anyhow::bail!(
